@@ -3,7 +3,9 @@ EXTENDS Integers, Sequences, FiniteSets, TLC, TLCExt, Json, CSV, IOUtils, Sequen
 CONSTANTS MaxTerms, Emit,
           Alphabet,     \* "plain" | "shadow" | "pair": which factors the terms are built from (below)
           MaxParts,     \* 1: simple formulas; > 1: structured formulas of up to MaxParts parts
-          Variant       \* "spec", or a design error of Calculus.tla that TLC must refute ("required", "consumed")
+          Variant,      \* "spec", or a design error of Calculus.tla that TLC must refute ("required", "consumed", "reordered")
+          MaxWrt,       \* the longest tuple of differentiation variables (<= 2)
+          Ordering      \* "degree" | "none" | "sort": the ordering mode the formula is built with (Calculus.tla)
 K == INSTANCE Calculus
 
 (* The factors.  "plain": four data columns of different lengths (a variable is matched as a whole name), each term optionally     *)
@@ -33,31 +35,37 @@ VARIABLES terms, wrt, icpt,
           closed        \* the parts before the one being written (<<>> throughout when MaxParts = 1)
 vars == <<terms, wrt, icpt, closed>>
 
-FormulaOf(ts) == K!SortByDegree((IF icpt THEN <<K!OneTerm>> ELSE <<>>) \o ts)
+\* the order of python strings on the factor expressions of the terms ("sort" mode; plain alphabet and the literals)
+Rank(e) == CASE e = "0" -> 0 [] e = "1" -> 1 [] e = "2" -> 2 [] e = "w" -> 3 [] e = "x1" -> 4 [] e = "yy" -> 5 [] e = "z" -> 6
+ASSUME Ordering = "sort" => Alphabet = "plain"
+FormulaOf(ts) == K!Ordered(Ordering, Rank, (IF icpt THEN <<K!OneTerm>> ELSE <<>>) \o ts)
 Formula == FormulaOf(terms)
 Parts == [k \in 1..(Len(closed) + 1) |-> FormulaOf(Append(closed, terms)[k])]
-DerivParts == K!DStructuredV(Variant, Parts, wrt, [k \in DOMAIN Parts |-> Required(Parts[k])])
+DerivParts == LET d == K!DStructuredV(Variant, Parts, wrt, [k \in DOMAIN Parts |-> Required(Parts[k])])
+              IN [k \in DOMAIN d |-> K!Reordered(Variant, Ordering, Rank, d[k])]
 Deriv == DerivParts[Len(Parts)]           \* MaxParts = 1: the derivative of the formula
 
-Laws == /\ Len(Deriv) = Len(Formula)
-        /\ \A k \in DOMAIN Parts : \A i \in DOMAIN Parts[k] : \A vi \in DOMAIN Vars : \A r \in DOMAIN Rows : \A h \in {1, 2} :
-              K!FiniteDifference(Parts[k][i], Vars[vi], Rows[r], h)
-        /\ \A k \in DOMAIN Parts : \A i \in DOMAIN Parts[k] : \A u, v \in {WrtVars[j] : j \in DOMAIN WrtVars} : K!Compositional(Parts[k][i], u, v)
+Laws == LET P == Parts  DP == DerivParts IN        \* (evaluated once per state)
+        /\ Len(DP[Len(P)]) = Len(P[Len(P)])
+        /\ \A k \in DOMAIN P : \A i \in DOMAIN P[k] : \A vi \in DOMAIN Vars : \A r \in DOMAIN Rows : \A h \in {1, 2} :
+              K!FiniteDifference(P[k][i], Vars[vi], Rows[r], h)
+        /\ \A k \in DOMAIN P : \A i \in DOMAIN P[k] : \A u, v \in {WrtVars[j] : j \in DOMAIN WrtVars} : K!Compositional(P[k][i], u, v)
         \* the formula level: the same parts, and every part's output is what the property says of it
-        /\ Len(DerivParts) = Len(Parts)
-        /\ \A k \in DOMAIN Parts : K!OutputLaw(Parts[k], DerivParts[k], wrt, Rows)
+        /\ Len(DP) = Len(P)
+        /\ \A k \in DOMAIN P : K!OutputLaw(P[k], DP[k], wrt, Rows)
 
 TermOut(t) == [j \in DOMAIN t |-> t[j].e]
 ColsOut(ts) == [i \in DOMAIN ts |-> [r \in DOMAIN Rows |-> K!ColAt(ts[i], Rows[r])]]
 Out == IOEnv.OUT_FILE
 EmitCase ==
   Emit => CSVWrite("%1$s", <<ToJson(
+     LET F == Formula  D == Deriv IN
      IF MaxParts = 1
-     THEN [terms |-> [i \in DOMAIN terms |-> TermOut(terms[i])], icpt |-> icpt, wrt |-> wrt,
-           f |-> [i \in DOMAIN Formula |-> TermOut(Formula[i])],
-           d |-> [i \in DOMAIN Deriv |-> TermOut(Deriv[i])],
-           cols |-> ColsOut(Deriv),
-           orig |-> ColsOut(Formula)]
+     THEN [terms |-> [i \in DOMAIN terms |-> TermOut(terms[i])], icpt |-> icpt, wrt |-> wrt, ordering |-> Ordering,
+           f |-> [i \in DOMAIN F |-> TermOut(F[i])],
+           d |-> [i \in DOMAIN D |-> TermOut(D[i])],
+           cols |-> ColsOut(D),
+           orig |-> ColsOut(F)]
      ELSE [icpt |-> icpt, wrt |-> wrt,
            parts |-> [k \in DOMAIN Parts |-> [terms |-> LET ts == Append(closed, terms)[k] IN [i \in DOMAIN ts |-> TermOut(ts[i])],
                                               f |-> [i \in DOMAIN Parts[k] |-> TermOut(Parts[k][i])],
@@ -67,6 +75,7 @@ EmitCase ==
 
 Init == /\ terms = <<>> /\ icpt \in BOOLEAN /\ closed = <<>>
         /\ wrt \in {<<>>} \cup {<<WrtVars[a]>> : a \in DOMAIN WrtVars} \cup {<<WrtVars[a], WrtVars[b]>> : a, b \in DOMAIN WrtVars}
+        /\ Len(wrt) <= MaxWrt
 RECURSIVE SumLens(_)
 SumLens(ps) == IF ps = <<>> THEN 0 ELSE Len(Head(ps)) + SumLens(Tail(ps))
 Written == Len(terms) + SumLens(closed)
